@@ -372,6 +372,30 @@ IsNumV(v) == v.k \in {"i", "f"}
 ToNumArith(v) == IF v.k \in {"i", "f", "fk"} THEN v ELSE IF v.k = "s" THEN Str2Num(v.s) ELSE VNil
 ToFs(v) == IF v.k = "i" THEN IToFAlts(v.v) ELSE <<v.f>>
 
+(* x ^ y: "the same rules of the ISO C function pow" (3.4.1).  The special cases of C99 Annex F.9.4.4 are exact;
+   everything else is some float (only the subtype is compared). *)
+FIsIntF(f) == f.c = "fin" /\ (f.e >= 0 \/ (f.e >= -52 /\ LowBitsZero(f.m, -f.e)))
+FIsOddF(f) == f.c = "fin" /\ ((f.e = 0 /\ Bit(f.m, 0) = 1) \/ (f.e < 0 /\ f.e >= -52 /\ LowBitsZero(f.m, -f.e) /\ Bit(f.m, -f.e) = 1))
+FIsOneAbs(f) == f.c = "fin" /\ f.e = -52 /\ f.m = Pow2(52, 8)
+FAbsGtOne(f) == f.c = "inf" \/ (f.c = "fin" /\ f.e >= -52 /\ ~FIsOneAbs(f))
+FAbsLtOne(f) == f.c = "zero" \/ (f.c = "fin" /\ f.e < -52)
+FOne == [c |-> "fin", n |-> FALSE, m |-> Pow2(52, 8), e |-> -52]
+FPow(x, y) ==
+  IF ~(FIsNum(x) /\ FIsNum(y)) THEN FUnd
+  ELSE IF y.c = "zero" THEN FOne                                            \* pow(x, +-0) = 1, even for a NaN
+  ELSE IF FIsOneAbs(x) /\ ~x.n THEN FOne                                    \* pow(1, y) = 1, even for a NaN
+  ELSE IF x.c = "nan" \/ y.c = "nan" THEN FNaN
+  ELSE IF x.c = "zero" THEN
+         (IF y.n THEN FInf(x.n /\ FIsOddF(y)) ELSE FZero(x.n /\ FIsOddF(y)))
+  ELSE IF y.c = "inf" THEN
+         (IF FIsOneAbs(x) THEN FOne                                          \* pow(-1, +-inf) = 1
+          ELSE IF FAbsLtOne(x) THEN (IF y.n THEN FInf(FALSE) ELSE FZero(FALSE))
+          ELSE (IF y.n THEN FZero(FALSE) ELSE FInf(FALSE)))
+  ELSE IF x.c = "inf" THEN
+         (IF y.n THEN FZero(x.n /\ FIsOddF(y)) ELSE FInf(x.n /\ FIsOddF(y)))
+  ELSE IF x.n /\ ~FIsIntF(y) THEN FNaN                                      \* negative finite base, non-integer exponent
+  ELSE FAny
+
 FBin(op, x, y) ==
   CASE op = "add" -> FAdd(x, y)
     [] op = "sub" -> FAdd(x, FNeg(y))
@@ -380,7 +404,7 @@ FBin(op, x, y) ==
     [] op = "idiv" -> FIdiv(x, y)
     [] op = "mod" -> FModX(x, y, FALSE)
     [] op = "fmod" -> FModX(x, y, TRUE)
-    [] op = "pow" -> IF FIsNum(x) /\ FIsNum(y) THEN FAny ELSE FUnd
+    [] op = "pow" -> FPow(x, y)
 Cross(op, A, C) ==
   IF Len(A) = 1 /\ Len(C) = 1 THEN <<VF(FBin(op, A[1], C[1]))>>
   ELSE IF Len(A) = 1 THEN <<VF(FBin(op, A[1], C[1])), VF(FBin(op, A[1], C[2]))>>
